@@ -108,7 +108,7 @@ def file_accessor_part(R, quick):
         work = os.path.join(R.tmp, f"fa{ci}-work")
         ops = candidate_ops(rng)
         if quick:
-            ops = [o for i, o in enumerate(ops) if (i + ci) % 2 == 0 or o[0] == "sf"]
+            ops = [o for i, o in enumerate(ops) if (i + ci) % 2 == 0 or o[0] in ("sf", "sc")]
         tb = [[o[2] if o[0] == "sf" else o[3], h12.gz_class(o[2] if o[0] == "sf" else o[3])]
               for o in ops if o[0] in ("sf", "sc")]
         for op in ops:
